@@ -45,11 +45,15 @@ TableF1 == << Row("d1", "A", "p1250"), Row("bad30", "A", "p1250"), Row("d2", "Bp
               Row("d1", "apA", "p1250"), Row("d2", "apX", "plus7") >>
 TableF2 == << Row("i1", "A", "p1250"), Row("i2", "Bp", "paren3"), Row("i1", "uni", "zero"), Row("i2", "A", "thou"),
               Row("i2", "apA", "thou"), Row("i1", "apX", "cur5") >>
-TableOf(layout) == IF layout = "L2" THEN TableF2 ELSE TableF1
+\* a merchant whose transactions are classified differently (two rules with the SAME name, split by amount), oldest first
+SplitF1 == << Row("d2", "spl", "thou"), Row("d1", "spl", "p1250") >>
+SplitF2 == << Row("i2", "spl", "thou"), Row("i1", "spl", "p1250") >>
+TableOf(layout, split) == (IF layout = "L2" THEN TableF2 ELSE TableF1) \o
+                          (IF split THEN (IF layout = "L2" THEN SplitF2 ELSE SplitF1) ELSE <<>>)
 
 CfgOf(s) == [fmt |-> IF s.layout = "L2" THEN "f2" ELSE "f1", sign |-> s.sign, mode |-> "desc",
              hasloc |-> s.layout = "L2", hasextra |-> s.layout = "L4", dec |-> s.dec]
-ParseSource(s) == R!Parse([i \in 1..Len(TableOf(s.layout)) |-> Resolve(TableOf(s.layout)[i])], CfgOf(s), s.header)
+ParseSourceS(s, split) == R!Parse([i \in 1..Len(TableOf(s.layout, split)) |-> Resolve(TableOf(s.layout, split)[i])], CfgOf(s), s.header)
 
 \* ---- classification ------------------------------------------------------------
 HasAlfa(descid) == descid \in {"A", "nv1", "nv4", "apA", "nvp"}
@@ -66,35 +70,43 @@ RulesFile(mode, kind) ==
       r3 == Rule(3, At("A3"), "", "", {"refund"}, <<50, 0, 1, 0>>)
       r4 == Rule(4, At("AP"), "Income", "Salary", {"income"}, <<50, 1, 0, 7>>)
       r5 == Rule(5, At("AS"), "", "", {"matched"}, <<50, 0, 1, 0>>)
-      r6 == Rule(6, At("AW"), "Shopping", "Grocery", {}, <<50, 1, 0, 6>>)   \* same subcategory as rule 1: a merchant keeps ONE (category, subcategory) in the report
+      r6 == Rule(6, At("AW"), "Shopping", "Grocery", {}, <<50, 1, 0, 6>>)
+      \* rules 7 and 8 carry the same name ("Split"): one merchant, two classifications
+      r7 == Rule(7, And2(At("AX"), At("A2")), "Shopping", "Wholesale", {}, <<50, 1, 1, 5>>)
+      r8 == Rule(8, At("AX"), "Food", "Grocery", {}, <<50, 1, 0, 5>>)   \* same subcategory as rule 1: a merchant keeps ONE (category, subcategory) in the report
   IN [globals |-> <<>>, mode |-> mode,
-      rules |-> IF kind = "none" THEN <<>> ELSE IF kind = "csv" THEN <<r1, r2, r4>> ELSE <<r6, r1, r2, r3, r4, r5>>]
+      rules |-> IF kind = "none" THEN <<>> ELSE IF kind = "csv" THEN <<r1, r2, r4>> ELSE <<r6, r1, r2, r3, r4, r5, r7, r8>>]
 
 TruthOf(t, suppVisible, stripped) ==
-  [a \in {"A1", "A2", "A3", "AP", "AS", "AW"} |->
+  [a \in {"A1", "A2", "A3", "AP", "AS", "AW", "AX"} |->
      CASE a = "A1" -> IF HasAlfa(t.desc[1]) THEN "T" ELSE "F"
        [] a = "A2" -> IF t.cents > 100000 THEN "T" ELSE "F"
        [] a = "A3" -> IF t.cents < 0 THEN "T" ELSE "F"
        [] a = "AP" -> IF HasPayroll(t.desc[1]) THEN "T" ELSE "F"
+       [] a = "AX" -> IF t.desc[1] = "spl" THEN "T" ELSE "F"
        [] a = "AW" -> IF HasPrefix(t.desc[1]) /\ ~stripped THEN "T" ELSE "F"
        [] a = "AS" -> IF ~suppVisible THEN "E" ELSE IF t.cents \in SuppAmounts THEN "T" ELSE "F"]
 
 \* one classified transaction
+\* (two sources may carry the same NAME - one account exported as two files; they stay two sources)
 Classified(b, s, t) ==
   \* rule_mode is a property of .rules files: the legacy CSV loop is always first-match
   LET cfg == Eff(b)
       f == RulesFile(IF cfg.rules = "csv" THEN "first_match" ELSE cfg.mode, cfg.rules)
       c == E!Classify(f, [v |-> TruthOf(t, b.supp, b.xform /\ cfg.rules = "rules"), dyn |-> "val"]) IN
   [src |-> s.name, desc |-> t.desc[1], date |-> t.date, cents |-> t.cents,
-   rule |-> IF c.win = 0 THEN 0 ELSE f.rules[c.win].id, cat |-> c.cat, sub |-> c.sub, tags |-> c.tags]
+   rule |-> IF c.win = 0 THEN 0 ELSE f.rules[c.win].id, cat |-> c.cat, sub |-> c.sub, tags |-> c.tags,
+   \* the merchant a transaction is filed under: the winning rule's name (rules 7 and 8 share one), else the description
+   mer |-> IF c.win = 0 THEN <<"unknown", t.desc[1]>>
+           ELSE <<"rule", IF f.rules[c.win].id = 8 THEN 7 ELSE f.rules[c.win].id>>]
 
 Counted(b) == {i \in 1..Len(b.sources) : b.sources[i].status = "present"}
 RECURSIVE Concat(_, _, _)
 Concat(b, i, acc) ==
   IF i > Len(b.sources) THEN acc
   ELSE IF b.sources[i].status # "present" THEN Concat(b, i + 1, acc)
-  ELSE LET ts == ParseSource(b.sources[i]) IN
-       Concat(b, i + 1, acc \o [k \in 1..Len(ts) |-> Classified(b, b.sources[i], ts[k])])
+  ELSE LET ts == ParseSourceS(b.sources[i], b.split) IN
+       Concat(b, i + 1, acc \o [k \in 1..Len(ts) |-> Classified(b, b.sources[i], ts[k]) @@ [sid |-> i]])
 AllTxns(b) == Concat(b, 1, <<>>)
 
 \* ---- totals ---------------------------------------------------------------------
@@ -107,10 +119,15 @@ SumOver(S, f) == IF S = {} THEN 0 ELSE LET x == CHOOSE y \in S : TRUE IN f[x] + 
 Flows(ts) == [bk \in {"income", "investment", "transfer_in", "transfer_out", "spending", "credits"} |->
                 SumOver({i \in 1..Len(ts) : Bucket(ts[i]) = bk}, [i \in 1..Len(ts) |-> Abs(ts[i].cents)])]
 
+\* The report files transactions under their merchant and shows ONE classification per merchant: that of the merchant's
+\* last transaction in processing order (sources in settings order, rows in file order).
+Shown(ts, k) == LET last == CHOOSE j \in 1..Len(ts) : ts[j].mer = ts[k].mer /\ \A i \in 1..Len(ts) : ts[i].mer = ts[k].mer => i <= j
+                IN [cat |-> ts[last].cat, sub |-> ts[last].sub]
 Report(b) ==
-  LET ts == AllTxns(b) IN
+  LET ts0 == AllTxns(b)
+      ts == [k \in 1..Len(ts0) |-> ts0[k] @@ [shown |-> Shown(ts0, k)]] IN
   [txns |-> ts, flows |-> Flows(ts),
-   perSource |-> [i \in Counted(b) |-> Len(ParseSource(b.sources[i]))],
+   perSource |-> [i \in Counted(b) |-> Len(ParseSourceS(b.sources[i], b.split))],
    cfg |-> Eff(b)]
 
 \* ---- C16: explain / discover are views of the same classification ------------------------
@@ -118,7 +135,7 @@ Report(b) ==
 Probes == << [desc |-> "nv1", cents |-> 150000], [desc |-> "nv1", cents |-> 500], [desc |-> "nv2", cents |-> -80000],
              [desc |-> "nv3", cents |-> -200], [desc |-> "nv4", cents |-> -700], [desc |-> "nv3", cents |-> 1250],
              [desc |-> "nvp", cents |-> 500], [desc |-> "nvq", cents |-> 900] >>
-Explain(b, p) == Classified(b, [name |-> "cli"], [desc |-> <<p.desc>>, date |-> <<2025, 1, 1>>, cents |-> p.cents])
+Explain(b, p) == Classified(b, [name |-> "cli"], [desc |-> <<p.desc>>, date |-> <<2025, 1, 1>>, cents |-> p.cents]) @@ [sid |-> 0]
 \* discover lists exactly the transactions `up` leaves Unknown
 Discover(b) == SelectSeq(AllTxns(b), LAMBDA t : t.cat = "Unknown")
 
@@ -126,12 +143,12 @@ Discover(b) == SelectSeq(AllTxns(b), LAMBDA t : t.cat = "Unknown")
 \* changing one source's settings changes only that source's transactions
 Compositional(b, i, s2) ==
   LET b2 == [b EXCEPT !.sources[i] = s2]
-      other(bb) == SelectSeq(AllTxns(bb), LAMBDA t : t.src # b.sources[i].name) IN
-  s2.name = b.sources[i].name => other(b2) = other(b)
+      other(bb) == SelectSeq(AllTxns(bb), LAMBDA t : t.sid # i) IN
+  other(b2) = other(b)
 \* a missing or supplemental source contributes no transactions and leaves the others intact
 MissingIsolated(b, i) ==
   LET b2 == [b EXCEPT !.sources[i].status = "missing"] IN
-  SelectSeq(AllTxns(b2), LAMBDA t : t.src # b.sources[i].name) = SelectSeq(AllTxns(b), LAMBDA t : t.src # b.sources[i].name)
+  SelectSeq(AllTxns(b2), LAMBDA t : t.sid # i) = SelectSeq(AllTxns(b), LAMBDA t : t.sid # i)
 SupplementalNeverCounted(b) == \A i \in 1..Len(b.sources) : b.sources[i].status = "supplemental" =>
-                                  \A k \in 1..Len(AllTxns(b)) : AllTxns(b)[k].src # b.sources[i].name
+                                  \A k \in 1..Len(AllTxns(b)) : AllTxns(b)[k].sid # i
 =============================================================================
